@@ -307,7 +307,7 @@ def gen_layernorm(rng, g, variant):
 
     return dict(comp="sampler:LayerNorm", line=line, run=run, check=check,
                 key=("layernorm", N, tuple(mid), tuple(ns), wr, brs, ch), nontrivial=N >= 1 and K > 1 and (wr or (has_bias and br)),
-                sample={"layer": "LayerNorm", "N": N, "mid": mid, "normalized_shape": ns, "bias": brs, "channel": ch})
+                sample={"layer": "LayerNorm", "N": N, "mid": mid, "normalized_shape": ns, "bias": brs, "channel": ch, "eps": eps})
 
 
 def gen_seqbias(rng, g, variant):
